@@ -8,6 +8,8 @@
 #include <fstream>
 #include <sstream>
 #include <unistd.h>
+#include <ctime>
+#include <chrono>
 
 using namespace xs;
 
@@ -15,6 +17,8 @@ extern "C" const char *__asan_default_options() { return "exitcode=77:detect_lea
 extern "C" const char *__ubsan_default_options() { return "print_stacktrace=1:halt_on_error=1:exitcode=77"; }
 extern "C" const char *__tsan_default_options() { return "exitcode=0:halt_on_error=0:report_signal_unsafe=0:second_deadlock_stack=1"; }
 
+// real wall clock (time() is redirected to the simulated clock in this executable)
+static long long real_now_s() { return (long long)std::chrono::duration_cast<std::chrono::seconds>(std::chrono::system_clock::now().time_since_epoch()).count(); }
 static uint64_t g_cur_seed = 0;
 static Plan g_cur_plan;
 static std::string g_dump_dir;
@@ -37,8 +41,9 @@ static void fatal_cb(const char *oracle, const char *detail) {
     if (G) { r.trace_hash = G->trace_hash; r.sim_ns = G->now; r.steps = G->steps; for (auto &kv : G->stat) r.stat[kv.first] = kv.second; }
     r.stat["must_exit"] = 1;
     Json j = r.to_json();
-    std::string path = dump_plan(g_cur_plan, "");
+    std::string path = dump_plan(g_cur_plan, g_cur_plan.P("variant") ? strf("-v%lld", (long long)g_cur_plan.P("variant")) : std::string());
     if (!path.empty()) j.set("plan_file", path);
+    if (g_cur_plan.P("variant")) j.set("variant", g_cur_plan.P("variant"));
     printf("END %llu %s\n", (unsigned long long)g_cur_seed, j.dump().c_str());
     fflush(stdout);
     _exit(0);
@@ -61,6 +66,7 @@ int main(int argc, char **argv) {
     std::string family, prop, file;
     uint64_t base = 1, count = 1, seed = 1;
     bool verbose = false;
+    long long deadline = 0;   // wall-clock second after which no new execution is started (batch budget; never read inside a run)
     for (int i = 2; i < argc; i++) {
         std::string a = argv[i];
         auto next = [&] { return i + 1 < argc ? std::string(argv[++i]) : std::string(); };
@@ -70,6 +76,7 @@ int main(int argc, char **argv) {
         else if (a == "--count") count = strtoull(next().c_str(), nullptr, 10);
         else if (a == "--seed") seed = strtoull(next().c_str(), nullptr, 10);
         else if (a == "--dump-dir") g_dump_dir = next();
+        else if (a == "--deadline") deadline = strtoll(next().c_str(), nullptr, 10);
         else if (a == "--verbose") verbose = true;
         else if (file.empty()) file = a;
     }
@@ -99,25 +106,70 @@ int main(int argc, char **argv) {
     if (mode == "run") {
         const Family *f = find_family(family);
         if (!f) { fprintf(stderr, "unknown family %s\n", family.c_str()); return 2; }
+        auto retire_if_dirty = [](const Result &r) {
+            // after any violation that may leave process-wide state behind the process is retired:
+            // no run may start from a state another left behind
+            bool dirty = r.stat.count("must_exit") > 0;
+            for (auto &v : r.violations)
+                if (v.oracle.compare(0, 4, "C08.") == 0 || v.oracle.compare(0, 8, "HARNESS.") == 0 || v.oracle.compare(0, 4, "C04.") == 0) dirty = true;
+            if (dirty) { fflush(stdout); _exit(0); }
+        };
         for (uint64_t s = base; s < base + count; s++) {
+            if (deadline && real_now_s() >= deadline) break;
             Plan p;
             f->gen(s, prop, p);
+            if (f->variants) p.p["record_calls"] = 1;
             g_cur_seed = s;
             g_cur_plan = p;
             printf("START %llu\n", (unsigned long long)s);
+            auto t0 = std::chrono::steady_clock::now();
             Result r = run_plan(p, verbose);
             Json j = r.to_json();
+            j.set("wall_ms", (int64_t)std::chrono::duration_cast<std::chrono::milliseconds>(std::chrono::steady_clock::now() - t0).count());
             if (r.verdict != "ok") {
                 std::string path = dump_plan(p, "");
                 if (!path.empty()) j.set("plan_file", path);
             }
             printf("END %llu %s\n", (unsigned long long)s, j.dump().c_str());
             fflush(stdout);
-            // after any violation the process is retired: no run may start from a state another left behind
-            bool dirty = r.stat.count("must_exit") > 0;
-            for (auto &v : r.violations)
-                if (v.oracle.compare(0, 4, "C08.") == 0 || v.oracle.compare(0, 8, "HARNESS.") == 0 || v.oracle.compare(0, 4, "C04.") == 0) dirty = true;
-            if (dirty) { fflush(stdout); _exit(0); }
+            retire_if_dirty(r);
+            if (!f->variants) continue;
+            // fault enumeration: every variant of the reference execution is an explicit plan of its own
+            std::vector<Plan> vs;
+            f->variants(p, r, vs, (size_t)p.P("variant_cap", 240));
+            r.calls.clear();
+            size_t vdone = 0;
+            bool truncated = !vs.empty() && vs[0].P("enum_truncated") != 0;
+            for (size_t vi = 0; vi < vs.size(); vi++) {
+                if (deadline && real_now_s() >= deadline + 20) { truncated = true; break; }   // grace: finish scenarios that are nearly done
+                Plan &vp = vs[vi];
+                vp.p["variant"] = (int64_t)vi + 1;
+                vp.p.erase("record_calls");
+                g_cur_plan = vp;
+                std::string curpath;
+                if (!g_dump_dir.empty()) {
+                    curpath = strf("%s/cur-%d.json", g_dump_dir.c_str(), (int)getpid());
+                    std::ofstream o(curpath);
+                    o << vp.to_json().dump() << "\n";
+                }
+                printf("START %llu %zu %s\n", (unsigned long long)s, vi + 1, curpath.c_str());
+                auto t0 = std::chrono::steady_clock::now();
+                Result vr = run_plan(vp, verbose);
+                Json vj = vr.to_json();
+                vj.set("wall_ms", (int64_t)std::chrono::duration_cast<std::chrono::milliseconds>(std::chrono::steady_clock::now() - t0).count());
+                vj.set("variant", (int64_t)vi + 1);
+                vj.set("variant_kind", vp.S("variant"));
+                if (vr.verdict != "ok") {
+                    std::string path = dump_plan(vp, strf("-v%zu", vi + 1));
+                    if (!path.empty()) vj.set("plan_file", path);
+                }
+                printf("END %llu %s\n", (unsigned long long)s, vj.dump().c_str());
+                fflush(stdout);
+                vdone++;
+                if (vi + 1 < vs.size()) retire_if_dirty(vr);
+                else { printf("SCEN %llu %zu %d\n", (unsigned long long)s, vdone, truncated ? 0 : 1); fflush(stdout); retire_if_dirty(vr); }
+            }
+            if (vdone < vs.size() || vs.empty()) { printf("SCEN %llu %zu %d\n", (unsigned long long)s, vdone, (truncated || !vs.empty()) ? 0 : 1); fflush(stdout); }
         }
         return 0;
     }
